@@ -8,6 +8,11 @@ BASE = json.load(open('/root/.vp/BASELINE.json'))['cmd'] if os.path.exists('/roo
 # id -> (engine, category, technique, level text, level note, design ref)
 E3NOTE = "Sequentially consistent interleavings at synchronisation granularity (locks, channels, select, WaitGroup, go statements, injected file-system effect points); atomics and un-instrumented dependencies (zapx, bbolt, roaring) execute atomically between scheduling points; timers never fire; exploration is exhaustive up to the stated deviation bound, not beyond. The source rewrite is regenerated from /repo's current tree on every run."
 CHECKS = {
+ "C19": ("E2-space", "model_checking",
+         "exhaustive enumeration of all byte strings up to a length bound over a boundary alphabet through every registered analysis component; exhaustive term-location enumeration for highlighters",
+         "For every analyzer, tokenizer, token filter and char filter found in the registry at run time (minimal configurations where one is required; filters driven by several tokenizers), ALL strings of ≤3 symbols (quick; 4–5 thorough) over a 14-symbol alphabet (ASCII classes, multi-byte scripts, ZWNJ, emoji, invalid bytes 0xff / truncated 0xc3) plus long-token patterns: no panic, termination, and for tokenizers 0≤Start≤End≤len, non-decreasing starts, positive non-decreasing positions. Highlighters are driven directly on every short stored value with every term location and location pair (rune-splitting and out-of-range included), and through real indexes on both engines: each fragment, markup and escaping removed, is a contiguous slice of the stored value and each marked span is the text at a reported location.",
+         "String length bound; token-filter offsets are observed, not asserted (the statement's offset clause is about tokenizers).",
+         "DESIGN.md §5 C19"),
  "C05": ("E1-opseq", "model_checking",
          "exhaustive enumeration of histories × physical layouts with a differential oracle (baseline layout vs every alternative), all on the real engine",
          "Every history up to depth 3 (thorough: plus depth 4 on a reduced alphabet) over 3 ids × (4 document versions + delete) is laid out as one segment per operation (baseline) and in every alternative the engine offers — every partition into consecutive batches, forced file merges, ForceMerge + reopen, two persister workers with in-memory merges, older segment formats — and the complete SearchResult of 13 queries × 5 sorts with fields, locations, highlighting and facets is compared: ids, Total, MaxScore and scores bit-for-bit, sort keys, stored fields, locations, fragments, facet counts.",
